@@ -1295,10 +1295,10 @@ class ElectrumX(SessionBase):
         start_height = non_negative_integer(start_height)
         count = non_negative_integer(count)
         cp_height = non_negative_integer(cp_height)
-        cost = count / 50
-
         max_size = self.MAX_CHUNK_SIZE
         count = min(count, max_size)
+        cost = count / 50
+
         headers, count = await self.db.read_headers(start_height, count)
         result = {'hex': headers.hex(), 'count': count, 'max': max_size}
         if count and cp_height:
